@@ -32,9 +32,8 @@ InitVals == /\ U' = [i \in Ids |-> IF i \in Trees THEN RootChange(i) ELSE NoChan
 TraceInit == Init /\ l = 1
 TrReset == IsEvent("reset") /\ InitVals
 
-TrAuthor == /\ IsEvent("author") /\ AuthorAdd
+TrAuthor == /\ IsEvent("author") /\ AuthorAddAt(X.t, X.snap, Set(X.prev))
             /\ U'[X.id].on /\ ~U[X.id].on
-            /\ U'[X.id].tree = X.t /\ U'[X.id].snap = X.snap /\ U'[X.id].prev = Set(X.prev)
 TrOpen     == IsEvent("open") /\ OpenTree /\ mem.tr[X.t].st = "closed" /\ mem'.tr[X.t].st = "open"
 TrDeferred == IsEvent("deferred") /\ OpenDeferred /\ mem.tr[X.t].st = "closed" /\ mem'.tr[X.t].def = "pending"
 TrReopen   == IsEvent("reopen") /\ Reopen
@@ -77,6 +76,7 @@ TrEnd ==
     /\ \A t \in Trees : HeadsEq(disk.heads[t], X.disk.heads[t])
     /\ disk.acl = Set(X.disk.acl) /\ disk.aclHead = X.disk.aclHead
     /\ mem.acl = X.mem.acl
+    /\ mem.space => (mem.obsAcl = X.mem.obsAcl /\ \A t \in Trees : mem.obs[t] = Set(X.mem.obs[t]))
     /\ \A t \in Trees : /\ (mem.tr[t].st = "open") = (X.mem.tr[t].st = "open")
                         /\ (mem.tr[t].st = "open" /\ mem.tr[t].def # "pending") =>
                               (mem.tr[t].hs = Set(X.mem.tr[t].hs) /\ mem.tr[t].root = X.mem.tr[t].root)
